@@ -50,6 +50,12 @@ def driver():
     return _DRV["exe"]
 
 
+class NativeFailure(Exception):
+    """the real C routine crashed / was stopped by a sanitizer / called exit(): a failure of the code under
+    test (not of the harness), whatever frame raised it."""
+    real_code_failure = True
+
+
 def run_driver(calls):
     """calls: list of (2-D float array [freq][dir], ihmax). Returns list of label maps or raises RuntimeError."""
     lines = [str(len(calls))]
@@ -60,7 +66,7 @@ def run_driver(calls):
     p = subprocess.run([driver()], input="\n".join(lines) + "\n", capture_output=True, text=True, timeout=120,
                        env=dict(os.environ, ASAN_OPTIONS="detect_leaks=0:abort_on_error=0", UBSAN_OPTIONS="print_stacktrace=1"))
     if p.returncode != 0:
-        raise RuntimeError("native routine failed (exit %s): %s %s" % (p.returncode, p.stdout[-200:], p.stderr[-600:]))
+        raise NativeFailure("native routine failed (exit %s): %s %s" % (p.returncode, p.stdout[-200:], p.stderr[-600:]))
     maps = []
     for (spec, _), line in zip(calls, [l for l in p.stdout.splitlines() if l.startswith("MAP")]):
         a = np.asarray(spec)
